@@ -18,6 +18,8 @@ Regions deliberately not modelled (`unmodelled <region>`):
 * `header-continuation`    : a part header line continued on the next line (leading space/tab)
 * `transfer-encoding`      : a part with a `Content-Transfer-Encoding` header (quoted-printable decoding)
 * `long-line`              : a preamble/separator line longer than the reader's 4096-byte buffer
+* `fuel`                   : the loops take fuel (input length + 1 or + 2, one unit per line / parameter, each of
+                             which consumes at least one byte); if it ever ran out the model declines rather than guess
 -/
 namespace Restli.Mime
 open Restli Restli.Url
@@ -170,10 +172,11 @@ inductive ParamLoop where
   | invalid        -- ErrInvalidMediaParameter: the media type is still returned, params = nil
   | duplicate      -- "duplicate parameter name": mediatype "" is returned
   | continuation   -- a parameter name with '*' : not modelled
+  | fuel           -- the model ran out of fuel (never happens with fuel = input length + 1; declined, not guessed)
 deriving Repr, DecidableEq
 
 def paramLoop : Nat → Bytes → List (Bytes × Bytes) → ParamLoop
-  | 0, _, acc => .ok acc
+  | 0, _, _ => .fuel
   | fuel + 1, v, acc =>
     let v1 := trimLeftSpace v
     if v1.isEmpty then .ok acc
@@ -198,6 +201,7 @@ def parseMediaType (v : Bytes) : Res (Bytes × List (Bytes × Bytes)) :=
       | .invalid => .ok (mediatype, [])
       | .duplicate => .ok ([], [])
       | .continuation => .unmodelled "mediatype-continuation"
+      | .fuel => .unmodelled "fuel"
 
 /-- `mime.FormatMediaType(t, {attr: value})` for a `type/subtype` of tokens and ONE parameter whose
 value is a token (what a hex boundary is) -/
@@ -313,7 +317,7 @@ def readerKey (k : Bytes) : Option Bytes :=
 
 /-- the loop of `textproto.readMIMEHeader`; fuel = input length + 1 (every line consumes ≥ 1 byte) -/
 def readHeaderLoop : Nat → Bytes → List (Bytes × Bytes) → HeadRes
-  | 0, _, _ => .err
+  | 0, _, _ => .unmodelled "fuel"
   | fuel + 1, s, acc =>
     match readLine s with
     | none => .eof                      -- end of input before the blank line: io.EOF
@@ -346,7 +350,7 @@ def strB (s : String) : Bytes := s.toUTF8.toList
 `first` is `partsRead == 0`; `expect` is `expectNewPart`; `nl` is `"\r\n"` or `"\n"`.
 Fuel = input length + 2: every round reads a line of ≥ 1 byte (or ends). -/
 def nextPart (b : Bytes) : Nat → Bytes → Bool → Bool → Bytes → Parts
-  | 0, _, _, _, _ => .err
+  | 0, _, _, _, _ => .unmodelled "fuel"
   | fuel + 1, nl, first, expect, s =>
     let r := readSlice s
     let line := r.1
